@@ -413,7 +413,7 @@ def run_model(case, real: Real, driver, fix=(1, 1)):
                 note_names(pj)
         if kind == 'online':
             pl = '?' if ports is None else it.portlist(ports)
-            rep = ask(f'online {rf} {devs} {pl}')
+            rep = ask(f'{"sync" if mode == "push" else "online"} {rf} {devs} {pl}')
         else:
             pl = '?' if ports is None else it.portlist(ports, with_value=True)
             rep = ask(f'poll {rf} {devs} {pl}')
@@ -438,8 +438,7 @@ def run_model(case, real: Real, driver, fix=(1, 1)):
             tags.add('reconnect-with-pushes')
         model_online = ports is not None and not (kind == 'online' and dev is None)
         if mode == 'push':
-            ask('offline')                 # a slave that is neither listened to nor polled is never "online"
-            model_online = False
+            model_online = False           # a slave that is neither listened to nor polled is never "online"
         window = None
 
     consumed = set()
